@@ -37,6 +37,11 @@ def run(pid, tier):
         out = os.path.join(d, "solve.ndjson")
         if vlib.record(V, ["spline", "solve", "--seed", seed, "--n", 160 if quick else 2500, "--out", out]):
             traces.append(out)
+    rt = {"events": 0}
+    if pid == "C14":
+        rt = vlib.repo_test_traces()          # every outermost basis-function call made by the repository's own tests
+        if vlib.count_lines(rt["spline"]):
+            traces.append(rt["spline"])
     jobs, paths = [], []
     for t in traces:
         k = max(1, min(12 if quick else 14, vlib.count_lines(t) // 8))
@@ -50,13 +55,18 @@ def run(pid, tier):
         events += r.get("distinct", 0)
         E = vlib.read_ndjson(p)
         for e in E:
-            if e["op"] == "basis":
+            if e["op"] == "basis1":
+                evals += 1
+            elif e["op"] == "basis":
                 evals += len(e["vals"]) * (e["k"] + 2) * len(e["xs"])
             else:
                 evals += len(e.get("ev", [])) + len(e["tau"])
         for v in r["violations"]:
             e = E[int(v["state"]["i"]) - 1]
-            if e["op"] == "basis":
+            if e["op"] == "basis1":
+                key = "spline/repotest/%s/k=%d/m=%d" % (e["fn"], e["k"], e["m"])
+                small = {"key": e["key"], "k": e["k"], "i": e["i"], "m": e["m"], "knots": len(e["t"])}
+            elif e["op"] == "basis":
                 key = "spline/basis/k=%d" % e["k"]
                 small = {"key": e["key"], "k": e["k"], "knots": len(e["t"])}
             else:
@@ -93,16 +103,16 @@ def run(pid, tier):
             break
     sample = []
     if traces:
-        e = vlib.read_ndjson(traces[-1])[1]
+        e = vlib.read_ndjson(traces[1 if len(traces) > 1 else 0])[1]
         sample = [{k: e[k] for k in ("key", "k", "layout", "kind", "left_n", "right_n", "lsq", "o") if k in e}]
         sample[0]["knots"] = len(e["t"])
     cov = dict(states=mc["distinct"], transitions=mc["generated"], action_coverage=coverage_summary(mc["out"]),
-               traces_validated_against_impl=events, evaluations=evals, distinct_nontrivial=evals,
-               rule=("C14: every (basis index, derivative order 0..k+1, sample point) of every knot multiplicity pattern written by TLC (knots 0^k, interior 1..3 with multiplicities, 4^k; quarter points incl. both end points and two points outside) plus random real knot vectors of orders 1..6; "
+               traces_validated_against_impl=events, evaluations=evals, distinct_nontrivial=evals, repo_test_events=rt["events"],
+               rule=("C14: every (basis index, derivative order 0..k+1, sample point) of every knot multiplicity pattern written by TLC (knots 0^k, interior 1..3 with multiplicities, 4^k; quarter points incl. both end points and two points outside) plus random real knot vectors of orders 1..6, the Dual / Dual2 entry points, and every outermost basis-function call the repository's own tests make (hooks on); "
                      "C15: seeded solved splines of orders 2..6 (one site per coefficient, natural and clamped cubic layouts with repeated end sites and derivative conditions, least squares, mismatched counts) of all three spline types, each evaluated with all three abscissa types at derivative orders 0..3 and through mapped_value; 'evaluations' counts recorded values judged"),
                exhaustive=(pid == "C14"), binding_demo=bind, samples=sample)
     assumptions = ["the oracle is the piecewise polynomial of the Cox-de Boor recursion in the monomial basis, evaluated by TLC in doubles; agreement to 1e-9 of the sum of absolute monomial terms",
-                   "interior knots of the solved-spline scenarios are simple so that the generated site layouts are admissible (Schoenberg-Whitney)",
+                   "interior knots of the solved-spline scenarios are simple, or repeated up to k-1 times in the Greville-based layouts, so that the generated site layouts are admissible (Schoenberg-Whitney)",
                    "spline order above 6 is not explored"]
     rc = V.finish()
     write_evidence(pid, tier, "model_checking", cov, assumptions, time.time() - t0, len(V.viol))
